@@ -18,7 +18,7 @@ TECHNIQUE = ('bounded exhaustive enumeration of report trees (every ordered tree
              'FormattedRst.write; the written directory is parsed back (pages, anchors, toctree entries, image targets) and compared with '
              'the tree')
 RULE = ('trees: root + k <= 3 sub-sections in every ordered-tree shape (1 + 1 + 2 + 5 shapes, depth <= 3) [thorough: k = 4, and the chain of '
-        'depth 5 and the rejected depth 6]; titles of the sub-sections: every assignment over {A, B, index, conf, figures, v1.0, v1.5, "a/b", "..", '
+        'depth 5 and the rejected depth 6]; titles of the sub-sections: every assignment over {A, B, index, conf, figures, v1.0, v1.5, "A " and "index " (trailing blank), "a/b", "..", '
         '"x\\0", ""}; results: none / one per section / two in the last section and one in the root (a failing TestEqual = table, a '
         'TestStudent = plots; MplPlot.save replaced by a stub creating the file); oracle after write(path): one page per section at '
         'path/<titles...>.rst with the root at index.rst, each page holding exactly the text marker of its own section, every result anchor '
